@@ -99,3 +99,21 @@ PROPS["C04"] = dict(
     assumptions=COMMON_ASSUME[:1] + ["extents 0..4 per dimension", "constructor from an iterator pair is only called with a non-empty range of non-empty elements (the library dereferences *first; its own callers check size()==0 first)",
                  "assignment from views with zero elements but non-zero leading size is excluded and counted (recorded known finding)", "D=0 arrays are not in this harness (array<T,0> copy construction only compiles with NDEBUG on the pinned tree)"],
 )
+
+PROPS["C06"] = dict(
+    targets=[dict(name="C06", src="vp/props/C06.cpp", maxlen=2 + 8*10)],
+    quick=dict(cases=2500, floor=20000),
+    thorough=dict(cases=50000, floor=400000, fuzz=dict(time=360)),
+    level="exploration",
+    level_text=("Stateful model-based testing: generated histories of reextent(x), reextent(x, v), moved reextent, reextent to the current extents, clear, = {}, reshape, assign(first,last), "
+                "assignment from nested initializer lists, constructors, copies and element writes over a pool of arrays (int and an instrumented non-trivial element, D in 1..4); after every "
+                "step every array is compared element by element with a model that keeps the intersection of old and new extents and fills the rest. Bounded exploration."),
+    technique="stateful model-based testing of generated resize histories against an index->value reference model (rapidcheck + libFuzzer)",
+    rule=("case = element type {int, Tracked} x D in 1..4 + up to 10 history records; new extents = old extents +-{0,1,2} per dimension clipped to 0..5 (growing, shrinking, mixed, to/from empty); "
+          "oracle = every index tuple in old and new keeps its value, every other element equals the fill value, or a value-initialised element for the non-trivial type; new elements of int without "
+          "a fill value are unspecified and are written by the harness, never read; no-op reextent keeps data_elements() and a saved elements() iterator; reshape keeps the flat sequence and the "
+          "storage; assign/initializer lists give exactly the requested contents. non-trivial = some reextent where old and new both have elements and the intersection is a proper non-empty subset "
+          "of both, or an assignment that changes extents; distinct = hash of decoded history text"),
+    assumptions=COMMON_ASSUME[:1] + ["extents 0..5 per dimension", "array::assign(extensions, value) does not instantiate on the pinned tree (cast to a private base) and is not exercised",
+                 "assign(first,last) is called with a non-empty range of non-empty rows (the library dereferences *first)"],
+)
